@@ -158,7 +158,9 @@ def run(tier, seed, only=None):
         tokmap[kid] = toks
         arr = ",\n".join('"%s"' % t for t in toks)
         src = '#include "harness/c15.h"\nstatic char const* toks[] = {\n%s\n};\nint main() { vf::install(); c15::parse_run<%s>("parse<%s>", %d, toks, %d); vf::finish(); }\n' % (arr, tc, tn, kid, len(toks))
-        for cfg in (["g-san", "c-san"] if tier == "thorough" else ["g-san"]):
+        # (parse<T> for T narrower than long does not compile under Clang 14: `Sum{sum * 1'000'000'000'000'000'000}` in parse.h is a narrowing
+        #  conversion in a braced initializer, which GCC only warns about - a portability defect of the pinned tree, not a value; such types run under GCC only)
+        for cfg in (["g-san"] + (["c-san"] if bits >= 63 else []) if tier == "thorough" else ["g-san"]):
             j = core.Job("c15p-%d" % kid, src, cfg, env={"VERIF_SEED": str(seed)}, extra_flags=["-DCNL_USE_IOSTREAMS=1"], timeout=3600)
             j.keep_raw = True
             j.kid = kid
